@@ -220,7 +220,22 @@ def run(ctx):
     jobs = [{'key': 'client', 'entry': dpoll.id, 'aut': ('custom', FailAut), 'acc': acc, 'cells': cells}]
     for ch in chains:
         jobs.append({'key': chain_name(ch), 'entry': rp.id, 'aut': ('custom', FailAut), 'chain': ch})
+    if fields:
+        jobs.append({'key': 'terminal', 'entry': dpoll.id, 'aut': ('custom', TerminalAut), 'acc': acc, 'cells': [((sorted(fields)[0], ('Some', STAR)),)]})
     res = run_jobs(F, jobs)
+    if fields:
+        r = res['terminal']
+        R.count('states_explored', r['stats'].get('states', 0))
+        ops = sorted({s_ for k in r['viol'] if k[0] == 'TRANSPORT_OPERATION_AFTER_TERMINAL_ERROR' for s_ in r['viol'][k]})
+        R.ob('C09.terminal', ('client dispatch poll', 'no transport operation once a terminal error is stored'), not ops,
+             'an activation that starts with a stored terminal error performs no transport operation: nothing can replace the stored error by another activity\'s error or '
+             'keep the dispatch from ending (and a failed transport is not touched again)', ops or [dpoll.loc(dpoll.d)])
+        rets = sorted({repr(ret)[:60] for (ret, e, lab) in r['exits'] if isinstance(ret, tuple) and ret[0] == 'Ready' and not (isinstance(ret[1], tuple) and ret[1][0] == 'Err')})
+        n_err = sum(1 for (ret, e, lab) in r['exits'] if isinstance(ret, tuple) and ret[0] == 'Ready' and isinstance(ret[1], tuple) and ret[1][0] == 'Err')
+        R.ob('C09.terminal', ('client dispatch poll', 'a stored terminal error ends the dispatch with an error'), not rets and n_err >= 1,
+             'an activation that starts with a stored terminal error completes only with Err', [dpoll.loc(dpoll.d)], 'other completions: %s' % rets)
+    else:
+        R.ob('C09.terminal', ('client dispatch poll', 'no transport operation once a terminal error is stored'), False, 'the dispatch stores its terminal error in an Option cell', [dpoll.loc(dpoll.d)])
     for key, entry, name in [('client', dpoll, 'client dispatch poll')] + [(chain_name(ch), rp, 'Requests<%s>::poll_next' % chain_name(ch)) for ch in chains]:
         r = res[key]
         R.count('states_explored', r['stats'].get('states', 0))
@@ -237,6 +252,19 @@ def run(ctx):
         R.ob('C09.report', (name, 'a failed transport operation ends the activation with an error'), not bad and n_fail >= 1,
              'after a read, readiness, flush or close failure (or a failed cancel/response write) the entry point returns the error (or is delivering it): the failure is never dropped while work continues',
              [entry.loc(entry.d)], 'exits that continue after a failure (return shape, which operation failed): %s' % sorted(set(bad))[:6])
+
+
+class TerminalAut:
+    """explored from states whose terminal-error cell is Some: any transport operation is a violation"""
+    name = 'terminal'
+
+    def init(self):
+        return None
+
+    def step(self, aut, ev, shape, site, X):
+        if ev[0] in ('W', 'R'):
+            X.violation(('TRANSPORT_OPERATION_AFTER_TERMINAL_ERROR', ev[1] if len(ev) > 1 else ev[0]), site)
+        return aut
 
 
 class FailAut:
